@@ -4,7 +4,7 @@
 use crate::c15_model::*;
 use crate::common::*;
 use num_bigint::BigUint;
-use num_traits::Zero;
+use num_traits::{One, Zero};
 use prio::verif_hooks::dp as hk;
 use serde_json::json;
 use std::cell::RefCell;
@@ -103,15 +103,30 @@ struct Scripted {
     cap: usize,
     record: bool,
     entries: usize,
+    /// Answer certain-outcome sub-calls at once, unrecorded (see `certain_outcome`).
+    elide: bool,
+    /// Normalised tape mode: uniform draws are decoded from this byte tape by the harness (a draw below 1
+    /// consumes nothing); every other body runs.
+    tape: Option<Vec<u8>>,
+    tape_pos: usize,
+    tape_end: bool,
 }
 
 thread_local! {
     static SCRIPTED: RefCell<Scripted> = RefCell::new(Scripted {
         mask: Mask(0), script: Vec::new(), pos: 0, calls: Vec::new(), stop: None, cap: 0, record: true, entries: 0,
+        elide: false, tape: None, tape_pos: 0, tape_end: false,
     });
 }
 
 struct AbortRun;
+
+thread_local! {
+    /// Whether `run_scripted` leaves certain-outcome sub-calls out (default). The Taylor mass accounting of
+    /// part 3 enumerates scripts of an explicit shape ("j successes then a failure", INCLUDING the trials whose
+    /// outcome is certain) and switches it off for its own runs.
+    pub static ELIDE_CERTAIN: std::cell::Cell<bool> = const { std::cell::Cell::new(true) };
+}
 
 fn scripted_interceptor() -> hk::Interceptor {
     Box::new(|layer, arg| {
@@ -121,6 +136,27 @@ fn scripted_interceptor() -> hk::Interceptor {
             if st.entries > st.cap {
                 st.stop = Some(RealStop::Cap);
                 return Err(());
+            }
+            if st.elide && st.entries > 1 {
+                if let Some(o) = certain_outcome(layer, arg) {
+                    return Ok(Some(o));
+                }
+            }
+            if layer == Layer::UniformBelow && st.tape.is_some() {
+                if arg.numer().is_one() {
+                    return Ok(Some(Outcome::Unsigned(BigUint::zero())));
+                }
+                let mut pos = st.tape_pos;
+                let v = tape_uniform_below(st.tape.as_ref().unwrap(), &mut pos, arg.numer());
+                st.tape_pos = pos;
+                return match v {
+                    Some(v) => Ok(Some(Outcome::Unsigned(v))),
+                    None => {
+                        st.tape_end = true;
+                        st.stop = Some(RealStop::Cap);
+                        Err(())
+                    }
+                };
             }
             if !st.mask.has(layer) {
                 if st.record {
@@ -207,6 +243,8 @@ pub fn run_scripted(top: Layer, arg: &Q, public: bool, mask: Mask, script: &[Out
         st.cap = 1_000_000;
         st.record = true;
         st.entries = 0;
+        st.elide = ELIDE_CERTAIN.with(|e| e.get());
+        st.tape = None;
     });
     hk::set_interceptor(Some(scripted_interceptor()));
     let mut trip = Tripwire::default();
@@ -487,6 +525,8 @@ pub fn run_capped<R: rand::Rng>(top: Layer, arg: &Q, public: bool, rng: &mut R, 
         st.cap = cap;
         st.record = false;
         st.entries = 0;
+        st.elide = false;
+        st.tape = None;
     });
     hk::set_interceptor(Some(scripted_interceptor()));
     let r = catch(|| call_layer(top, arg, public, rng));
@@ -505,4 +545,35 @@ pub fn run_capped<R: rand::Rng>(top: Layer, arg: &Q, public: bool, rng: &mut R, 
             }
         }
     }
+}
+
+/// NORMALISED tape execution of the real code: every uniform draw is decoded from `tape` by the harness's own
+/// `tape_uniform_below` (a draw below 1 consumes nothing), all other procedure bodies run, the `Rng` is a
+/// tripwire. Returns the result, or None if the tape ended / the entry cap was hit / the code panicked.
+pub fn run_tape_normalised(top: Layer, arg: &Q, public: bool, tape: &[u8], cap: usize) -> Option<Outcome> {
+    SCRIPTED.with(|st| {
+        let mut st = st.borrow_mut();
+        st.mask = Mask(0);
+        st.script.clear();
+        st.pos = 0;
+        st.calls.clear();
+        st.stop = None;
+        st.cap = cap;
+        st.record = false;
+        st.entries = 0;
+        st.elide = false;
+        st.tape = Some(tape.to_vec());
+        st.tape_pos = 0;
+        st.tape_end = false;
+    });
+    hk::set_interceptor(Some(scripted_interceptor()));
+    let mut trip = Tripwire::default();
+    let r = catch(|| call_layer(top, arg, public, &mut trip));
+    hk::set_interceptor(None);
+    SCRIPTED.with(|st| {
+        let mut st = st.borrow_mut();
+        st.tape = None;
+        st.stop = None;
+    });
+    r.ok()
 }
